@@ -216,6 +216,11 @@ def _v2_cat(prop, case, f):
 @pred("bit-unpack-32bit-accumulator-width-ge-25")
 def _bp25(prop, case, f):
     # cencoding.read_bitpacked accumulates bits in a uint32: once width + bit offset exceeds 32 the high bits are lost
+    if prop == "C03":
+        # dictionary indices of width >= 25: wrong cells, or an index beyond the dictionary (IndexError)
+        if f.get("kind") == "read_raised":
+            return f.get("exc") == "IndexError" and any(c.get("enc") == "DICT" and (c.get("index_width") or 0) >= 25 for c in f.get("columns") or [])
+        return f.get("kind") == "cells_differ" and f.get("enc") == "DICT" and (f.get("index_width") or 0) >= 25
     if f.get("func") not in ("read_bitpacked", "hybrid") or f.get("kind") != "values_differ" or f.get("itemsize") != 4:
         return False
     if (f.get("width") or 0) < 25:
@@ -229,6 +234,13 @@ def _bp25(prop, case, f):
 def _delta29(prop, case, f):
     # cencoding.delta_read_bitpacked refills before draining with int8 bit counters: wrong values from 29 bits per delta on;
     # from 57 bits the shift count reaches 64 and the byte reader runs away (segfault)
+    if prop == "C03":
+        if f.get("kind") == "cells_differ" and f.get("enc") == "DELTA_BINARY_PACKED":
+            return (f.get("max_miniblock_width") or 0) >= 29
+        if f.get("kind") == "process_crash":
+            return any(c.get("encoding") == "DELTA_BINARY_PACKED" and not c.get("use_dict") and (c.get("delta_bits") or 0) >= 56
+                       for c in (case.get("recipe") or {}).get("columns", []))
+        return False
     if f.get("kind") == "values_differ" and f.get("func") == "delta":
         return (f.get("max_miniblock_width") or 0) >= 29
     if f.get("kind") == "process_crash" and case.get("fn") == "delta":
@@ -318,3 +330,13 @@ def _cat_minus1(prop, case, f):
 def _int96_stats(prop, case, f):
     # the format defines no order for INT96, so such chunks should carry no min/max; write_column computes them for every datetime column
     return f.get("kind") == "minmax_for_type_without_order" and f.get("ptype") == "INT96"
+
+
+@pred("delta-page-without-values-reads-a-nonexistent-block")
+def _delta0(prop, case, f):
+    # delta_binary_unpack always reads a block header (min delta + width bytes) after the page header, also when the page holds 0
+    # values (an all-null page) and the stream ends right after the header: it runs past the buffer (segmentation fault)
+    if f.get("kind") != "process_crash":
+        return False
+    return any(c.get("encoding") == "DELTA_BINARY_PACKED" and not c.get("use_dict") and c.get("optional") and c.get("nulls") not in (None, "none")
+               for c in (case.get("recipe") or {}).get("columns", []))
